@@ -1093,7 +1093,6 @@ class XmlDocument(SubXmlBase):
                 continue
 
             key = c.tag.split('}', 1)[-1]
-            frequencies[key] += 1
 
             member = flat_type_info.get(key, None)
             if member is None:
@@ -1102,6 +1101,10 @@ class XmlDocument(SubXmlBase):
                     member, key = cls._type_info_alt.get(c.tag, (None, key))
                     if member is None:
                         continue
+
+            # counted under the member's own key: a member that is written
+            # under its sub_name is looked up by that name just above.
+            frequencies[key] += 1
 
             # XmlAttribute and XmlData members are not child elements.
             if issubclass(member, (XmlAttribute, XmlData)):
